@@ -301,15 +301,53 @@ func (v *Verifier) VerifyFunc(key string, c *Contract, class map[string]string) 
 			cond := e.evalBool(c.PanicsIff.E, ose)
 			e.obligation(st, "panics_iff", "return=>!cond", Not(cond), "a normal return requires the panic condition to be false")
 		}
-		for i, en := range c.Ensures {
-			g := e.evalBool(en.E, se)
-			lab := en.Label
-			if lab == "" {
-				lab = fmt.Sprint(i)
+		if c.Mode == "atomic" {
+			// sequential specification at the linearization action
+			lp := 0
+			if l := c.Extra["linpoint"]; len(l) > 0 {
+				fmt.Sscanf(l[0], "%d", &lp)
 			}
-			e.obligation(st, "ensures", lab, g, en.Src)
+			if want := c.Extra["actions"]; len(want) > 0 {
+				n := 0
+				fmt.Sscanf(want[0], "%d", &n)
+				e.obligation(st, "one-action", "count", mkBoolTerm(len(st.actionLog) == n), fmt.Sprintf("the method performs exactly %d atomic action(s) on every path (this path: %d)", n, len(st.actionLog)))
+			}
+			if len(c.Ensures) > 0 {
+				if lp < len(st.actionLog) {
+					a := st.actionLog[lp]
+					lse := &SpecEnv{e: e, st: a.Post, old: a.Pre, fr: e.rootFr, vars: vars, env: env, pkg: c.Pkg, cur: st}
+					e.bindLets(c, lse)
+					for i, en := range c.Ensures {
+						g := e.evalBool(en.E, lse)
+						lab := en.Label
+						if lab == "" {
+							lab = fmt.Sprint(i)
+						}
+						e.obligation(st, "lin", lab, g, "at the linearization action: "+en.Src)
+					}
+				} else {
+					e.obligation(st, "lin", "exists", False, "no linearization action on this path")
+				}
+			}
+			for i, en := range c.ExitEnsures {
+				g := e.evalBool(en.E, se)
+				lab := en.Label
+				if lab == "" {
+					lab = fmt.Sprint(i)
+				}
+				e.obligation(st, "exit_ensures", lab, g, en.Src)
+			}
+		} else {
+			for i, en := range c.Ensures {
+				g := e.evalBool(en.E, se)
+				lab := en.Label
+				if lab == "" {
+					lab = fmt.Sprint(i)
+				}
+				e.obligation(st, "ensures", lab, g, en.Src)
+			}
+			e.checkFrame(st, "assigns")
 		}
-		e.checkFrame(st, "assigns")
 		if len(retPCs) < 48 {
 			retPCs = append(retPCs, append([]Term(nil), st.pc...))
 		}
@@ -390,4 +428,48 @@ func (e *Engine) entryMemoryWF(st *State, t types.Type, seen map[string]bool, de
 			e.entryMemoryWF(st, c, seen, depth)
 		}
 	}
+}
+
+func mkBoolTerm(b bool) Term {
+	if b {
+		return True
+	}
+	return False
+}
+
+// VerifyLemma: a closed formula over integers and booleans, proved for all values of its parameters.
+func (v *Verifier) VerifyLemma(ax *Axiom) (run *FuncRun) {
+	run = &FuncRun{Key: ax.Pkg + ".lemma." + ax.Name}
+	ctx := NewCtx()
+	e := &Engine{prog: v.prog, pkgs: v.pkgs, cs: v.cs, ctx: ctx, lay: NewLayouter(ctx, false), maxPaths: 10,
+		inputs: map[string]Term{}, trustedUsed: map[string]bool{}, callees: map[string]bool{}, subFuns: map[string]bool{}, subCodes: map[string]int{}}
+	e.funcName = run.Key
+	e.next0 = ctx.Const("next0", SInt)
+	defer func() {
+		if r := recover(); r != nil {
+			if u, ok := r.(Unsupported); ok {
+				run.Err = u
+				return
+			}
+			panic(r)
+		}
+	}()
+	st := NewState()
+	st.next = e.next0
+	fr := &Frame{regs: map[ssa.Value]Val{}, names: map[string]NameBinding{}}
+	vars := map[string]Val{}
+	for _, p := range ax.Params {
+		var t types.Type = intT
+		if p.Type == "bool" {
+			t = boolT
+		}
+		pv := e.freshVal(p.Name, t)
+		vars[p.Name] = pv
+		e.inputs[p.Name] = pv.L[0]
+	}
+	se := &SpecEnv{e: e, st: st, old: st, fr: fr, vars: vars, pkg: ax.Pkg}
+	g := e.evalBool(ax.Body, se)
+	run.Obs = []*Obligation{{Name: run.Key + "/lemma", Kind: "lemma", Func: run.Key, Goal: g, Ctx: ctx, Inputs: e.inputs, Note: ax.Body.Src}}
+	run.Paths = 1
+	return
 }
